@@ -36,7 +36,25 @@ FALSY = [False, 0, '', None, []]
 TRUTHY = [True, 1, 'x', [0], 2.5]
 
 
+class Flip:
+    """A condition value whose truth value is what it is when it is first looked at and the opposite afterwards (a
+    mutable container that the consumer empties or fills, an object with a stateful __bool__): the element was
+    classified when its condition was evaluated - it belongs to exactly one side."""
+
+    def __init__(self, first):
+        self.first = first
+        self.seen = False
+
+    def __bool__(self):
+        if not self.seen:
+            self.seen = True
+            return self.first
+        return not self.first
+
+
 def sel_obj(code):
+    if (code // 2) % 5 == 4:
+        return Flip(bool(code % 2))
     return (TRUTHY if code % 2 else FALSY)[(code // 2) % 5]
 
 
